@@ -69,23 +69,35 @@ def make_cfg(cls, bits, enc, dev):
     return cfg
 
 
+def bits_equal(a, b):
+    """bit-for-bit equality (distinguishes -0.0 from +0.0, treats identical NaN payloads as equal)"""
+    return a.shape == b.shape and a.dtype == b.dtype and torch.equal(a.contiguous().view(torch.int64), b.contiguous().view(torch.int64))
+
+
 def check_case(case):
     cls, bits, enc, dev, pname, seed = case["cls"], case["bits"], case["enc"], case["dev"], case["pattern"], case["seed"]
     s = C.SUBJECTS[cls]
     cfg = make_cfg(cls, bits, enc, dev)
     out = []
     V = lambda cell, sym, msg: out.append((cell, sym, msg))
-    with torch.random.fork_rng():
-        torch.manual_seed(3000 + seed)
-        m = s.build(cfg)
-    pat = C.pattern_for(pname, seed)
-    fill(m, pat)
-    if pat[0] == "pat":
-        C.cap_conditioner(s, {**cfg, "mask": [int(b) for b in bits]}, m)
-    m = m.double().eval()
     n = len(bits)
     ident = [i for i, b in enumerate(bits) if not b]
     trans = [i for i, b in enumerate(bits) if b]
+    try:
+        with torch.random.fork_rng():
+            torch.manual_seed(3000 + seed)
+            m = s.build(cfg)
+        if len(m.identity_features) != len(ident) or len(m.transform_features) != len(trans):
+            V("construct", "mask misinterpreted", "mask %r: layer has %d identity / %d transformed features, the documented rule (entry > 0 = transformed) gives %d / %d" % (cfg["mask"], len(m.identity_features), len(m.transform_features), len(ident), len(trans)))
+            return out
+        pat = C.pattern_for(pname, seed)
+        fill(m, pat)
+        if pat[0] == "pat":
+            C.cap_conditioner(s, {**cfg, "mask": [int(b) for b in bits]}, m)
+    except Exception as e:
+        V("construct", "constructor raises %s" % type(e).__name__, "mask %r: %s: %s" % (cfg["mask"], type(e).__name__, str(e)[:120]))
+        return out
+    m = m.double().eval()
     shape = (n,) if cfg["dims"] == "2d" else (n, 2, 1)
     box = cfg.get("tb", 1.0) is None and "tb" in cfg
     B = 2
@@ -93,6 +105,8 @@ def check_case(case):
         x = 0.5 + 0.4 * pat_tensor((B,) + shape, 2 + seed, 1.0)
     else:
         x = pat_tensor((B,) + shape, 2 + seed, 1.6)
+    if not box and ident:
+        x[0, ident[0], ...] = -0.0  # bit-for-bit includes the sign of zero
     cs = s.ctx_shape({**cfg, "mask": [int(b) for b in bits]})
     ctx = None if cs is None else pat_tensor((B,) + cs, 5, 0.7)
     uncond = bool(cfg.get("uncond"))
@@ -130,7 +144,7 @@ def check_case(case):
         seen_ok(seen[0], x[:, ident, ...], "forward")
     # (a) identity features bit-for-bit
     if not uncond:
-        if not torch.equal(y[:, ident, ...], x[:, ident, ...]):
+        if not bits_equal(y[:, ident, ...], x[:, ident, ...]):
             V("forward", "identity features modified", "forward changed identity features %s: %s -> %s" % (ident, x[:, ident, ...].flatten().tolist()[:4], y[:, ident, ...].flatten().tolist()[:4]))
     else:
         # elementwise function of themselves: perturb one identity element, the other identity outputs must not move
@@ -176,7 +190,7 @@ def check_case(case):
         V("inverse", "raises %s" % type(e).__name__, "inverse(forward(x)) raised %s: %s" % (type(e).__name__, str(e)[:100]))
         return out
     if not uncond:
-        if not torch.equal(xr[:, ident, ...], y[:, ident, ...]):
+        if not bits_equal(xr[:, ident, ...], y[:, ident, ...]):
             V("inverse", "identity features modified", "inverse changed identity features %s" % ident)
         if seen:
             seen_ok(seen[0], y[:, ident, ...], "inverse")
